@@ -14,7 +14,6 @@ func c09Render(fields []skelField) string {
 	return skelDeclsText(codeForStruct(st, make(gen.Cache)))
 }
 
-
 func HC09_tsIgnoredField() {
 	c09IgnoredField(c09Render, "C09/ignored-field-leaves-typescript-unchanged")
 }
